@@ -188,6 +188,7 @@ type Site struct {
 	Frames   []int // indexes (into Walked.Sites) of the enclosing size fields, outermost first
 	LEB      bool  // the field is an (unsigned or signed) LEB128
 	Fn       int   // code body number for sites inside a body, else -1
+	Sec      int   // index of the section the site belongs to
 }
 
 type ImportInfo struct {
@@ -220,13 +221,18 @@ type Walked struct {
 	ImpOK    bool // import section absent or fully read
 	Mems     []Lim
 	Tables   []Lim
-	SizesOK  bool    // memory and table sections absent or fully read
+	SizesOK  bool     // memory and table sections absent or fully read
 	LocalSum []uint64 // per code body: sum of the declared local counts
 	LocalOff []int    // per code body: offset of its first local-n field (or of the body)
 	Complete bool     // every section was walked to its end without a read error
+	// FirstBadSec is the first section whose content could not be read or does not end
+	// where its size field says (-1: none). A sequential decoder stops there.
+	FirstBadSec int
+	LocalSec    []int // per code body: its section index
 }
 
 type walker struct {
+	sec    int
 	b      []byte
 	w      *Walked
 	pos    int
@@ -242,7 +248,7 @@ func (k *walker) site(off, n int, kind string, val uint64, leb bool) int {
 		rem = 0
 	}
 	k.w.Sites = append(k.w.Sites, Site{Off: off, Len: n, Kind: kind, Val: val, Rem: rem,
-		Frames: append([]int(nil), k.frames...), LEB: leb, Fn: k.fn})
+		Frames: append([]int(nil), k.frames...), LEB: leb, Fn: k.fn, Sec: k.sec})
 	return len(k.w.Sites) - 1
 }
 
@@ -477,7 +483,7 @@ func (k *walker) leave(oldEnd int) {
 
 // Walk does the deep walk.
 func Walk(b []byte) *Walked {
-	w := &Walked{TypesOK: true, ImpOK: true, SizesOK: true}
+	w := &Walked{TypesOK: true, ImpOK: true, SizesOK: true, FirstBadSec: -1}
 	w.Secs, w.Hdr = Split(b)
 	if !w.Hdr {
 		return w
@@ -487,10 +493,13 @@ func Walk(b []byte) *Walked {
 	for si := range w.Secs {
 		s := &w.Secs[si]
 		consumed = s.PayEnd
-		k := &walker{b: b, w: w, pos: s.SizeOff, end: len(b), fn: -1}
+		k := &walker{b: b, w: w, pos: s.SizeOff, end: len(b), fn: -1, sec: si}
 		szSite := k.site(s.SizeOff, s.SizeLen, kSecSize, uint64(s.Size), true)
 		k.pos = s.PayOff
-		k.end = s.PayEnd
+		// The content is read content-driven, not clamped to the declared section size
+		// (a sequential decoder finds out that the size lied only after reading);
+		// FirstBadSec records where content and framing first disagree.
+		k.end = len(b)
 		k.frames = []int{szSite}
 		switch s.ID {
 		case 0:
@@ -617,6 +626,9 @@ func Walk(b []byte) *Walked {
 		}
 		if k.bad || k.pos != s.PayEnd || s.Trunc {
 			w.Complete = false
+			if w.FirstBadSec < 0 {
+				w.FirstBadSec = si
+			}
 		}
 	}
 	if consumed != len(b) {
@@ -677,40 +689,54 @@ func (k *walker) body(fn int) {
 	if first < 0 {
 		first = off
 	}
+	k.w.LocalSec = append(k.w.LocalSec, k.sec)
 	k.w.LocalSum = append(k.w.LocalSum, sum)
 	k.w.LocalOff = append(k.w.LocalOff, first)
+	localsBad := k.bad
 	for !k.bad && k.pos < k.end {
 		k.instr()
 	}
 	k.fn = -1
-	trunc := uint64(off)+uint64(sz) > uint64(old) // declared size runs past the section
+	trunc := uint64(k.pos) > uint64(bodyEnd) || uint64(off)+uint64(sz) > uint64(old) // declared size runs past the input
 	k.leave(old)
+	// an instruction that cannot be read is the validator's business, not the
+	// framing's: the body still ends where its size field says
+	k.bad = localsBad || trunc
 	if !k.bad {
 		k.pos = bodyEnd
-	}
-	if trunc {
-		k.bad = true
 	}
 }
 
 func (k *walker) custom() {
+	// content-driven like the rest: the name and the name subsections are read
+	// without regard to the declared section size (payEnd), which is only compared
+	// afterwards
+	payEnd := k.w.Secs[k.sec].PayEnd
 	nm := k.name()
 	if k.bad {
 		return
 	}
 	if nm != "name" {
-		k.pos = k.end
+		if k.pos > payEnd {
+			k.bad = true
+			return
+		}
+		k.pos = payEnd
 		return
 	}
-	for !k.bad && k.pos < k.end {
+	for !k.bad && k.pos < payEnd {
 		id := k.byteSite(kNameSubID)
 		sz := k.u32(kNameSubSize)
 		if k.bad {
 			return
 		}
 		si := len(k.w.Sites) - 1
-		old := k.enter(si, uint64(sz))
-		subEnd := k.end
+		subEnd := k.pos + int(sz)
+		if uint64(k.pos)+uint64(sz) > uint64(k.end) {
+			subEnd = k.end
+		}
+		old := k.end
+		k.frames = append(k.frames, si)
 		switch id {
 		case 0:
 			k.name()
@@ -732,8 +758,12 @@ func (k *walker) custom() {
 			}
 		}
 		k.leave(old)
-		k.bad = false // a broken subsection does not stop the framing walk
-		k.pos = subEnd
+		if id > 2 {
+			k.pos = subEnd // unknown subsections are skipped by size, known ones are read content-driven
+		}
+		if k.bad {
+			return
+		}
 	}
 }
 
@@ -754,37 +784,67 @@ func className(kind string) string {
 	return kind
 }
 
-// FindLiar returns the count/size field with the largest excess of declared
-// value over remaining input (ok=false if no field exceeds max(remaining, 1024)).
-// The sum of the local counts of one body is treated as one field.
+// FindLiar names the count/size field that explains an out-of-proportion
+// allocation: a decoder reads the input front to back, so it is the first
+// field (in offset order) that declares at least 2^20 elements/bytes and more
+// than the input that is left; if there is none, the field with the largest
+// excess over the remaining input (ok=false if no field exceeds
+// max(remaining, 1024)). The sum of the local counts of one body is one field.
+// Size fields that a decoder only compares afterwards (the size of a
+// non-custom section, of a name subsection) are not candidates.
 func FindLiar(b []byte) (Liar, bool) {
 	w := Walk(b)
-	var best Liar
-	var bestScore uint64
-	consider := func(class string, val uint64, rem, off int) {
-		floor := uint64(rem)
-		if floor < 1024 {
-			floor = 1024
-		}
-		if val <= floor {
-			return
-		}
-		if score := val - uint64(rem); score > bestScore {
-			bestScore = score
-			best = Liar{Class: class, Val: val, Rem: rem, Off: off}
-		}
+	var cands []Liar
+	lastSec := len(w.Secs)
+	if w.FirstBadSec >= 0 {
+		lastSec = w.FirstBadSec // a sequential decoder does not get past this section
 	}
 	for i := range w.Sites {
 		s := &w.Sites[i]
-		if s.Kind == kLocalN {
+		switch {
+		case s.Sec > lastSec:
+			continue
+		case s.Kind == kLocalN:
 			continue // summed per body below
+		case s.Kind == kNameSubSize:
+			continue
+		case s.Kind == kSecSize:
+			if s.Off == 0 || b[s.Off-1] != 0 {
+				continue
+			}
 		}
 		if isCountKind(s.Kind) || isSizeKind(s.Kind) {
-			consider(className(s.Kind), s.Val, s.Rem, s.Off)
+			cands = append(cands, Liar{Class: className(s.Kind), Val: s.Val, Rem: s.Rem, Off: s.Off})
 		}
 	}
 	for i, sum := range w.LocalSum {
-		consider("locals-count", sum, 0, w.LocalOff[i])
+		if w.LocalSec[i] <= lastSec {
+			cands = append(cands, Liar{Class: "locals-count", Val: sum, Rem: 0, Off: w.LocalOff[i]})
+		}
 	}
-	return best, bestScore > 0
+	var first, best *Liar
+	var bestScore uint64
+	for i := range cands {
+		c := &cands[i]
+		floor := uint64(c.Rem)
+		if floor < 1024 {
+			floor = 1024
+		}
+		if c.Val <= floor {
+			continue
+		}
+		if c.Val >= 1<<20 && (first == nil || c.Off < first.Off) {
+			first = c
+		}
+		if score := c.Val - uint64(c.Rem); score > bestScore {
+			bestScore, best = score, c
+		}
+	}
+	if first != nil {
+		return *first, true
+	}
+	if best != nil {
+		return *best, true
+	}
+	return Liar{}, false
 }
